@@ -15,6 +15,7 @@ package interp
 import (
 	"fmt"
 	"regexp"
+	"strconv"
 	"strings"
 	"sync"
 )
@@ -46,15 +47,33 @@ func InternLit(s string) int64 {
 	if c, ok := litCodes[s]; ok {
 		return c
 	}
-	litNext++
-	c := litNext
-	if !identLitRe.MatchString(s) || reservedWords[s] {
-		c = -c
+	ident := identLitRe.MatchString(s) && !reservedWords[s]
+	// the name NameOfCode invented for a generic code value stands for that
+	// value (concrete replays lex such names)
+	if m := freshNameRe.FindStringSubmatch(s); m != nil && ident {
+		if n, err := strconv.ParseInt(m[1], 10, 64); err == nil && fmt.Sprintf("Zv%dq", n) == s {
+			if _, taken := litNames[n]; !taken {
+				litCodes[s], litNames[n] = n, s
+				return n
+			}
+		}
 	}
-	litCodes[s] = c
-	litNames[c] = s
-	return c
+	for {
+		litNext++
+		c := litNext
+		if !ident {
+			c = -c
+		}
+		if _, taken := litNames[c]; taken {
+			continue // reserved by NameOfCode for a model value
+		}
+		litCodes[s] = c
+		litNames[c] = s
+		return c
+	}
 }
+
+var freshNameRe = regexp.MustCompile(`^Zv([0-9]+)q$`)
 
 // LitOfCode returns the literal with the given code, if any.
 func LitOfCode(c int64) (string, bool) {
@@ -212,11 +231,25 @@ func (c *Ctx) NewCode(class byte, hint string) string {
 
 // NameOfCode gives the concrete identifier standing for a code value in a
 // model: the literal with that code, or a fresh name unique to the value.
+//
+// The table of literals is shared by all workers and grows while they run.
+// The first time a value's name is asked for, the value is bound to that name
+// for good, so that a literal interned later (by any worker) can never take
+// the same code and change what the value stands for between two uses of one
+// model.
 func NameOfCode(v int64) string {
-	if s, ok := LitOfCode(v); ok {
+	litMu.Lock()
+	defer litMu.Unlock()
+	if s, ok := litNames[v]; ok {
 		return s
 	}
-	return fmt.Sprintf("Zv%dq", v)
+	s := fmt.Sprintf("Zv%dq", v)
+	if v >= 0 {
+		if _, used := litCodes[s]; !used {
+			litNames[v], litCodes[s] = s, v
+		}
+	}
+	return s
 }
 
 // NewEnumCode declares an Int-coded atom (class 'T') that ranges over an
